@@ -17,6 +17,17 @@ with control requests that *name an endpoint in wIndex*:
   - look-alikes that must NOT touch any toggle: CLEAR_FEATURE with another feature selector or recipient,
     SET_FEATURE(ENDPOINT_HALT), GET_STATUS(endpoint), a class request with bRequest = 1.
 
+Audit additions: OUT endpoints are built with buffer_size in {default, mps, mps+1, 2*mps, 3*mps}; a held consumer + full
+packets provoke the buffer-full NAK, after which (optionally after traffic elsewhere and a second attempt) the consumer is
+released and the SAME toggle must still be accepted (a toggle that advanced on the NAK shows as ACK-and-drop).  The application
+inputs `flush` and `discard` of the stream IN endpoints are driven between transactions (60 % of the sessions); because they
+make packet boundaries timing dependent, IN payloads are judged by stream continuity + retry identity (flex model) and the
+toggle strictly: `discard` drops the un-ACKed data but must leave the toggle where the last ACK put it, in all four situations
+(idle, packet pending, retry pending after another token, still waiting for the withheld ACK).  CLEAR_FEATURE also names
+endpoint 0, and unpopulated numbers with reserved wIndex bits (bits 4-6, high byte = a populated number): nothing may change.
+Completed clear-halts are counted per endpoint kind (REQUIRED_EVENTS), so a handler that never completes them for one
+direction makes the run inconclusive instead of silently held.
+
 Monitors: host-side capture of the PID of every IN data packet; accept/skip behaviour of the OUT endpoints (ACK +
 bytes leaving the endpoint's stream); spies on the endpoint interfaces (see C12).
 
@@ -50,8 +61,12 @@ REQUIRED_BINS = ["clear_in_toggle1", "clear_out_toggle1", "clear_in_retry_pendin
                  "clear_interleaved_with_other_endpoint", "lookalike_bad_feature", "lookalike_bad_recipient", "lookalike_set_feature",
                  "lookalike_class_request", "lookalike_get_status", "in_ack_withheld_silent", "in_ack_withheld_damaged",
                  "out_damaged_data", "out_wrong_toggle_sent", "clear_signal_endpoint", "clean_session", "fs60_session",
-                 "toggle_observed_after_clear_in", "toggle_observed_after_clear_out"]
-REQUIRED_EVENTS = ["clear_halt_completed", "in_data_packets", "in_acked", "in_naks", "out_acked_new", "out_delivery_checks",
+                 "toggle_observed_after_clear_in", "toggle_observed_after_clear_out",
+                 "out_nak_buffer_full", "out_retry_after_nak_accepted", "out_buffer_size_mps", "out_buffer_size_default",
+                 "out_buffer_size_large", "app_flush", "discard_awaiting_ack", "discard_retry_pending", "discard_packet_pending",
+                 "discard_at_toggle1", "toggle_observed_after_discard", "clear_endpoint_zero",
+                 "clear_windex_reserved_bits"]
+REQUIRED_EVENTS = ["clear_halt_completed", "clear_halt_completed_in", "clear_halt_completed_out", "clear_halt_completed_sig", "in_data_packets", "in_acked", "in_naks", "out_acked_new", "out_delivery_checks",
                    "ep_tx_valid_cycles", "ep_handshake_requests", "sig_transactions", "in_stream_bytes_accepted",
                    "out_stream_bytes_delivered"]
 ASSUMPTIONS = ["legal host: one transaction at a time; handshake within the turn-around time or not at all",
@@ -112,6 +127,14 @@ def make_session(rng, res, tier):
             elif getattr(m, "cleared_at_toggle1", False) and observed == 1 and m.toggle == 0:
                 self.res.violation("in_toggle_not_reset_by_clear_halt", "IN ep=%d still sends DATA1 after a completed clear-halt; ops=%s"
                                    % (key[0], self.ops_log[-12:]))
+            elif getattr(m, "discard_situation", None) == "awaiting_ack" and observed == m.toggle ^ 1:
+                self.res.violation("in_toggle_advanced_by_discard_while_awaiting_ack",
+                                   "IN ep=%d: packet sent, host withheld the ACK, `discard` asserted before any further token: the next "
+                                   "packet carries the advanced toggle DATA%d although no transaction completed; ops=%s"
+                                   % (key[0], observed, self.ops_log[-12:]))
+            elif getattr(m, "discard_situation", None) and observed is not None:
+                self.res.violation("in_toggle_changed_by_discard", "IN ep=%d: after `discard` (%s) the next packet has DATA%d, model expects "
+                                   "DATA%d; ops=%s" % (key[0], m.discard_situation, observed, m.toggle, self.ops_log[-12:]))
             else:
                 self.res.violation("in_wrong_toggle", "IN ep=%d packet %d sent with toggle %s, model expects DATA%d (retry=%s); ops=%s"
                                    % (key[0], m.k, observed, m.toggle, retry, self.ops_log[-12:]))
@@ -179,13 +202,19 @@ def run_case(rng, tier, res):
     sig = (s.sig_number, "in")
     streams = ins + outs
     populated_numbers = {k[0] for k in s.models}
-    absent_keys = [(n, d) for n in s.absent for d in ("in", "out")] + \
+    absent_keys = [(0, "in"), (0, "out")] + [(n, d) for n in s.absent for d in ("in", "out")] + \
                   [(k[0], "out" if k[1] == "in" else "in") for k in s.models if (k[0], "out" if k[1] == "in" else "in") not in s.models]
     # a 'clean' session only uses request shapes that leave no unfinished CLEAR_FEATURE behind
     clean = rng.random() < 0.45
     if clean:
         res.bin("clean_session")
     counts = {"completed_t1": 0, "abandoned": 0}
+    # packet boundaries of the IN streams depend on flush/discard timing: judge toggle, retry identity and stream continuity
+    for k in ins:
+        s.models[k].flex = True
+    app_controls = rng.random() < 0.6
+    for n, size in s.cfg["out_buffer"].items():
+        res.bin("out_buffer_size_" + {None: "default", "mps": "mps", "mps+1": "mps", "2mps": "large", "3mps": "large"}[size])
 
     def toggle_of(key):
         m = s.models[key]
@@ -203,6 +232,9 @@ def run_case(rng, tier, res):
             m.cleared_at_toggle1 = m.cleared_recently = False
             if flagged:              # (a flag raised by this transaction's own ACK concerns the NEXT packet)
                 m.spurious_clear = False
+            if getattr(m, "discard_situation", None):
+                res.bin("toggle_observed_after_discard")
+                m.discard_situation = None
         return info
 
     def do_out(key, **kw):
@@ -248,6 +280,13 @@ def run_case(rng, tier, res):
             target = rng.choice(absent_keys)
             res.bin("clear_absent_endpoint")
         windex = target[0] | (0x80 if target[1] == "in" else 0)
+        if target[0] == 0:
+            res.bin("clear_endpoint_zero")
+        if target not in s.models and rng.random() < 0.4:
+            # reserved wIndex bits set (bits 4-6, high byte): whatever the device makes of such a request, the low nibble /
+            # bit 7 name no endpoint of ours and the other bit fields must not be taken for an endpoint number
+            windex |= rng.choice([0x10, 0x20, 0x40, 0x70, 0]) | (rng.choice([1, 0x80 | min(populated_numbers), max(populated_numbers), 0xFF]) << 8)
+            res.bin("clear_windex_reserved_bits")
         # ---- request shape
         shapes = ["halt"] * 10 + (["bad_feature", "bad_recipient", "set_feature", "class_request", "get_status"] if not clean
                                   else ["set_feature", "class_request", "get_status"])
@@ -258,7 +297,7 @@ def run_case(rng, tier, res):
             setup = U.setup_bytes(0x02, 1, rng.choice([1, 2, 0x0100]), windex, 0)
             res.bin("lookalike_bad_feature")
         elif shape == "bad_recipient":
-            setup = U.setup_bytes(rng.choice([0x00, 0x01]), 1, rng.choice([0, 1]), windex, 0)
+            setup = U.setup_bytes(rng.choice([0x00, 0x01, 0x03, rng.randint(4, 31)]), 1, rng.choice([0, 1]), windex, 0)
             res.bin("lookalike_bad_recipient")
         elif shape == "set_feature":
             setup = U.setup_bytes(0x02, 3, 0, windex, 0)
@@ -337,7 +376,8 @@ def run_case(rng, tier, res):
                 res.event("clear_halt_completed")
                 if mode == "second_attempt":
                     res.bin("clear_completed_second_attempt")
-                if m is not None:
+                if m is not None and is_clear_halt(setup):
+                    res.event("clear_halt_completed_" + m.kind)
                     m.clear_halt()
                     m.cleared_recently = True
                     m.cleared_at_toggle1 = bool(before) or getattr(m, "cleared_at_toggle1", False)
@@ -362,6 +402,37 @@ def run_case(rng, tier, res):
                 yield from touch(key)
                 yield from s.gap()
 
+    def app_control():
+        """The application drives `flush` / `discard` of a stream IN endpoint between two transactions."""
+        k = rng.choice(ins)
+        m = s.models[k]
+        if rng.random() < 0.5:
+            # directed: a transaction whose ACK the host withholds, then (sometimes) a token elsewhere, then discard
+            yield from do_in(k, rng.choice(["none", "bad_pid"]))
+            yield from s.gap()
+            if rng.random() < 0.5:
+                yield from other_traffic(avoid=k)
+                yield from s.gap()
+        if rng.random() < 0.45:
+            yield from s.op_flush(k, rng.choice([1, 2, 10, 40]))
+            res.bin("app_flush")
+        else:
+            if m.unacked and not m.own_token_since:
+                situation = "awaiting_ack"
+            elif m.unacked:
+                situation = "retry_pending"
+            elif m.pending():
+                situation = "packet_pending"
+            else:
+                situation = "idle"
+            res.bin("discard_" + situation)
+            if m.toggle:
+                res.bin("discard_at_toggle1")
+            yield from s.op_discard(k, rng.choice([1, 1, 3, 12]))
+            m.discard_situation = situation
+        yield from s.host.idle(rng.randint(3, 60))
+        yield from do_in(k, "ack" if rng.random() < 0.8 else None)
+
     def driver():
         yield from s.start()
         if rng.random() < 0.4:
@@ -380,20 +451,32 @@ def run_case(rng, tier, res):
         n_ops = rng.randint(22, 36)
         for _ in range(n_ops):
             r = rng.random()
-            if r < 0.30:
+            if r < 0.28:
                 yield from clear_feature()
-            elif r < 0.58:
+            elif r < 0.54:
                 yield from do_in(rng.choice(ins))
-            elif r < 0.84:
+            elif r < 0.78:
                 yield from do_out(rng.choice(outs))
-            elif r < 0.91:
+            elif r < 0.84:
                 if not s.models[sig].unacked:
                     s.set_signal(rng.getrandbits(32))
                 yield from do_in(sig)
-            elif r < 0.94:
+            elif r < 0.91:
+                if app_controls:
+                    yield from app_control()
+                else:
+                    yield from do_in(rng.choice(ins))
+            elif r < 0.93:
                 yield from s.op_ping(rng.choice(outs)[0])
-            elif r < 0.97:
+            elif r < 0.95:
                 yield from s.op_control(rng.choice([U.setup_bytes(0x80, 6, 0x0100, 0, 18), U.setup_bytes(0x80, 8, 0, 0, 1)]))
+            elif r < 0.985:
+                # buffer-full NAK: the NAKed packet must not advance the toggle (retry with the same toggle is accepted)
+                k = rng.choice(outs)
+
+                nak = yield from s.nak_pattern(k, between=(lambda: other_traffic(avoid=k)) if rng.random() < 0.6 else None)
+                mk = s.models[k]
+                mk.spurious_clear = mk.cleared_at_toggle1 = mk.cleared_recently = False
             elif ins:
                 # starve / feed an IN stream (the OUT consumers are never stalled here: every OUT transaction is judged
                 # individually, which a held consumer would prevent)
